@@ -1470,6 +1470,34 @@ def r3_analyze(rep):
     rep.ob(R, "analyze: a world-level function item is analysed", bool(direct), f"{[e.args[1] for e in calls]}", fn.loc())
     rep.ob(R, "analyze: every function of a world-level interface item is analysed", bool(viaif), f"{[e.args[1] for e in calls]}",
            fn.loc())
+    # nothing is skipped: an interface that is both imported and exported (or mentioned by several worlds) must be
+    # analysed once per mention, because each mention contributes its own direction.  So the walk has no early exit,
+    # no `continue`/`break`, and the calls are not under any `if`.
+    skips = [n for n in synq.walk(fn.body) if n.get("k") in ("continue", "break", "return")]
+    conds = []
+    def under_if(node, target, inside=False):
+        if node is target:
+            return inside
+        if isinstance(node, dict):
+            k = node.get("k")
+            for key, v in node.items():
+                if isinstance(v, (dict, list)):
+                    r = under_if(v, target, inside or (k in ("if", "while") and key in ("then", "else", "body")) or
+                                 (k == "match" and key == "arms" and False))
+                    if r is not None:
+                        return r
+        elif isinstance(node, list):
+            for v in node:
+                r = under_if(v, target, inside)
+                if r is not None:
+                    return r
+        return None
+    guarded = [e for e in calls if under_if(fn.body, e.node)]
+    arm_guards = [a for m_ in synq.matches_in(fn.body) for a in synq.arms(m_) if a.guard is not None]
+    rep.ob(R, "analyze: no world item is skipped (no continue/break/early return, no conditional or guarded analysis)",
+           not skips and not guarded and not arm_guards,
+           f"{len(skips)} skip statement(s), {len(guarded)} conditional call(s), {len(arm_guards)} guarded arm(s): an interface "
+           "mentioned twice (imported and exported) would keep only the facts of its first mention", fn.loc())
 
 
 # ---------------------------------------------------------------------------- R28.4
